@@ -88,6 +88,9 @@ pub fn payload(mode: Mode, len: usize, strict_class: bool) -> BoxedStrategy<(Vec
             // periodic content: the whole symbol becomes a regular texture (thousands of identical runs / windows)
             1 => any::<u8>().prop_map(move |b| (vec![b; len], "byte_constant")),
             1 => (vec(any::<u8>(), 1..5), any::<u8>()).prop_map(move |(unit, _)| ((0..len).map(|i| unit[i % unit.len()]).collect(), "byte_periodic")),
+            // well-formed UTF-8 text of exactly `len` bytes (what users outside ASCII pass): accented Latin, Greek,
+            // Cyrillic, CJK, emoji in several mixes
+            2 => utf8_text(len).prop_map(|v| (v, "byte_utf8_text")),
             // narrower classes: only stay as they are when the mode is forced (strict_class re-classes them)
             1 => vec(b'0'..=b'9', len).prop_map(|v| (v, "byte_digits_only")),
             1 => vec(0usize..45, len).prop_map(|v| (v.into_iter().map(|i| ALNUM_SET[i]).collect(), "byte_alnum_only")),
@@ -123,6 +126,41 @@ pub fn payload(mode: Mode, len: usize, strict_class: bool) -> BoxedStrategy<(Vec
             })
             .boxed(),
     }
+}
+
+/// Well-formed UTF-8 text of exactly `len` bytes. The script mix is drawn per text: ASCII with accented Latin-1
+/// letters (U+00A0..U+00FF), Latin-1 letters only, Latin Extended / Greek / Cyrillic (two-byte), CJK (three-byte),
+/// emoji (four-byte), or everything mixed; the tail is filled with ASCII when the next character does not fit.
+pub fn utf8_text(len: usize) -> BoxedStrategy<Vec<u8>> {
+    (0usize..6, vec(any::<u16>(), len.min(4000))).prop_map(move |(mix, sels)| {
+        let mut out: Vec<u8> = Vec::with_capacity(len);
+        let mut it = sels.into_iter().chain(std::iter::repeat(0x1234u16));
+        while out.len() < len {
+            let s = it.next().unwrap() as u32;
+            let k = s >> 3;
+            let ch: char = match (mix, s % 8) {
+                (0, 0..=4) | (5, 0) => (b'a' + (k % 26) as u8) as char,
+                (0, _) | (1, _) | (5, 1) => char::from_u32(0xA0 + k % 0x60).unwrap(),
+                (2, 0..=2) | (5, 2) => char::from_u32(0x100 + k % 0x80).unwrap(),
+                (2, 3..=5) | (5, 3) => char::from_u32(0x391 + k % 0x39).filter(|c| *c != '\u{3a2}').unwrap_or('Ω'),
+                (2, _) | (5, 4) => char::from_u32(0x410 + k % 0x40).unwrap(),
+                (3, 0) => ' ',
+                (3, _) | (5, 5) => char::from_u32(0x4E00 + k % 0x1000).unwrap(),
+                (4, 0..=2) => (b'A' + (k % 26) as u8) as char,
+                (4, _) | (5, _) => char::from_u32(0x1F600 + k % 0x40).unwrap(),
+                _ => 'x',
+            };
+            let mut buf = [0u8; 4];
+            let e = ch.encode_utf8(&mut buf).as_bytes();
+            if out.len() + e.len() <= len {
+                out.extend_from_slice(e);
+            } else {
+                out.push(b'a' + (k % 26) as u8);
+            }
+        }
+        out
+    })
+    .boxed()
 }
 
 /// Lengths for a cell. With an automatic version the length must lie in [lo, cap] for the build to
@@ -510,6 +548,12 @@ pub fn realistic_payload() -> BoxedStrategy<Vec<u8>> {
         (num, num, num).prop_map(|(a, b, c)| format!("{}{}{}", a, b, c)),
         (up, up, up).prop_map(|(a, b, c)| format!("{}/{}/{}", a, b, c)),
         "[a-zA-Z0-9+/]{24,64}",
+        // names, addresses, messages with letters outside ASCII
+        "[A-Z][a-zàâäçèéêëîïôöùûüÿñßøåæ]{2,12} [A-Z][a-zàâäçèéêëîïôöùûüÿñßøåæ]{2,14}",
+        "[a-zà-öø-ÿ ]{8,60}",
+        ("[a-zà-öø-ÿ]{2,12}", num).prop_map(|(a, n)| format!("{} {} €", a, n)),
+        "[α-ωА-я ]{4,40}",
+        "[一-龥]{2,30}",
         (word, "[0-9a-f]{24,40}").prop_map(|(a, h)| format!("{}/{}", a, h)),
     ];
     s.prop_map(|x| x.into_bytes()).boxed()
